@@ -165,7 +165,7 @@ def gen_decl(rng, derive, style, k):
     else:
         r = rng.random()
         if style == "vsel":
-            eattr = rng.sample(["owned", "ref", "ref_mut"], rng.choice([1, 1, 2, 2, 3]))
+            eattr = rng.sample(["owned", "ref", "ref_mut"], rng.choice([1, 1, 2, 2, 3])) if rng.random() < 0.7 else None
         elif style in ("plain", "vref", "whitelist"):
             if derive == "TryInto":
                 eattr = rng.choice([None, ["owned"], ["ref"], ["owned", "ref"], ["owned", "ref", "ref_mut"], ["ref_mut"],
@@ -200,7 +200,13 @@ def gen_decl(rng, derive, style, k):
                                         ["owned", "ref"], ["ref", "ignore"], ["ignore", "owned"],
                                         rng.sample(allowed, rng.randrange(0, 4))])
     if style == "vsel" and not any(is_selection(v["attr"]) for v in variants):
-        variants[-1]["attr"] = [rng.choice([m for m in ["owned", "ref", "ref_mut"] if m not in eattr] or ["ref"])]
+        variants[-1]["attr"] = [rng.choice([m for m in ["owned", "ref", "ref_mut"] if m not in (eattr or [])] or ["ref"])]
+    if style == "vsel" and eattr is None:
+        for v in variants:                  # nothing left to the first-match default
+            if v["attr"] is None:
+                v["attr"] = rng.choice([["owned"], ["ref"], ["ref_mut"], ["owned", "ref"], ["ignore"]])
+        if all(v["attr"] == ["ignore"] for v in variants):
+            variants[0]["attr"] = ["owned"]
     if style == "whitelist" and not any(v["attr"] == [] for v in variants):
         variants[0]["attr"] = []
     if style == "vref" and not any(v["attr"] and "ignore" not in v["attr"] for v in variants):
@@ -259,10 +265,14 @@ def documented(d):
     fa = [f["attr"] for v in d["variants"] for f in v["fields"]]
     if dv == "IsVariant":
         return d["attr"] is None and all(a in (None, ["ignore"]) for a in va) and all(a is None for a in fa)
+    # a variant without any attribute next to attributed ones is subject to the first-match whitelisting rule; a
+    # variant-level list is therefore read by the oracle only next to an enum-level selection, or when every variant
+    # carries an attribute of its own (then nothing is left to a default)
+    anchored = d["attr"] is not None or all(a is not None for a in va)
     if dv in ("Unwrap", "TryUnwrap"):
         # records cannot be unwrapped (the property ranges over unit and tuple variants): they must be ignored
         return (d["attr"] is None or is_selection(d["attr"])) and all(a is None for a in fa) and \
-            all(a in (None, ["ignore"]) or (is_selection(a) and "owned" not in a) for a in va) and \
+            all(a in (None, ["ignore"]) or (is_selection(a) and ("owned" not in a or anchored)) for a in va) and \
             all(v["attr"] == ["ignore"] for v in d["variants"] if v["kind"] == "named")
     ok_e = d["attr"] is None or is_selection(d["attr"])
     only_ign = all(a in (None, ["ignore"]) for a in va)
@@ -271,10 +281,17 @@ def documented(d):
     only_wl = all(a in (None, []) for a in va) and d["attr"] is None
     # owned/ref/ref_mut on a variant: try_into.md shows the selection on the enum only, but the attribute is accepted
     # on variants and the property ranges over per-variant selections. The oracle reads it as "the variant
-    # additionally selects these kinds", and only next to an enum-level selection (without one, any variant
-    # attribute also acts as the `#[try_into]` whitelisting mark, whose interplay is not documented).
-    vsel = d["attr"] is not None and all(a in (None, ["ignore"]) or is_selection(a) for a in va)
-    return ok_e and (only_ign or only_wl or vsel) and all(a in (None, ["ignore"]) for a in fa)
+    # additionally selects these kinds" (see `anchored` above).
+    vsel = anchored and all(a in (None, ["ignore"]) or is_selection(a) for a in va)
+    # the recorded first-match defect (KNOWN_FINDINGS variant-level-ref-attr) has a TryInto face as well: when the first
+    # attributed variant names ref_mut together with ref or owned, the by-value default is switched off for the others.
+    # Those declarations are left to the model-vs-code ties.
+    return ok_e and (only_ign or only_wl or vsel) and all(a in (None, ["ignore"]) for a in fa) and not owned_default_quirk(d)
+
+
+def owned_default_quirk(d):
+    first = next((v["attr"] for v in d["variants"] if v["attr"] is not None), None)
+    return first is not None and "ref_mut" in first and ("ref" in first or "owned" in first) and "owned" not in (d["attr"] or [])
 
 
 SEL = {"owned": "owned", "ref": "ref", "ref_mut": "mut"}
@@ -286,16 +303,13 @@ def is_selection(a):
 
 
 def doc_modes(d, v):
-    """reference kinds the declaration selects for variant v (enum-level selection plus the variant's own);
-    the by-value form is the documented default"""
-    modes = set()
+    """reference kinds the declaration selects for variant v: the enum-level list plus the variant's own; the by-value
+    form is the default of all three derives and no attribute takes it away (unwrap.md / try_unwrap.md generate
+    `unwrap_foo(self)` next to `_ref`; try_into.md: "the default is #[try_into(owned)]")"""
+    modes = {"owned"}
     for a in (d["attr"] or []) + (v["attr"] or []):
         if a in SEL:
             modes.add(SEL[a])
-    if d["derive"] in ("Unwrap", "TryUnwrap"):
-        modes.add("owned")            # unwrap.md / try_unwrap.md: `unwrap_foo(self)` is always generated
-    elif d["attr"] is None:
-        modes.add("owned")            # try_into.md: "If that's not provided the default is #[try_into(owned)]"
     return modes
 
 
@@ -348,10 +362,6 @@ def oracle_obs(d, acc, vi):
     if not doc_ignored(d, y) and tuple(f["ty"] for f in y["fields"] if f["attr"] != ["ignore"]) == tuple(tys):
         if mode in doc_modes(d, y):
             return [ok]
-        if mode == "owned" and any(is_selection(w["attr"]) for w in d["variants"]):
-            return [ok, ("E", True)]      # by-value conversion not selected for this variant but generated for others
-        if mode == "owned":
-            return [ok]                   # the extra by-value impl of an enum-level `ref`-only selection serves every variant
         return [("E", True)]              # this variant did not select the reference kind
     return [("E", True)]
 
@@ -405,9 +415,7 @@ def known_variant_ref_shape(d, missing):
         whitelisted_out = v["attr"] is None and d["attr"] is None and sel_somewhere
         # third symptom of the same first-match rule (utils.rs:448-450): the by-value default is switched off for the
         # whole enum when the first attributed variant names ref_mut together with ref or owned
-        first = next((w["attr"] for w in d["variants"] if w["attr"] is not None), None)
-        owned_default_off = k[2] == "owned" and "owned" not in (d["attr"] or []) and first is not None and \
-            "ref_mut" in first and ("ref" in first or "owned" in first)
+        owned_default_off = k[2] == "owned" and owned_default_quirk(d)
         if not (only_on_variant or whitelisted_out or owned_default_off):
             return False
     return True
@@ -878,6 +886,13 @@ def corpus():
                                               V("Other", "tuple", ["u64"]), V("Skip", "tuple", ["u64"], attr=["ignore"])])
     add("TryInto", "T", ["ref_mut"], [V("A", "tuple", ["Vec<T>", "i32"], attr=["owned"]), V("B", "named", ["Vec<T>", "i32"], attr=["ref"]),
                                       V("C", "tuple", ["Vec<T>", "i32"]), V("D", attr=["ref", "owned"])])
+    add("TryInto", "none", ["ref"], [V("Small", "tuple", ["i32"], attr=["owned"]), V("Big", "tuple", ["i32"])])
+    add("TryInto", "none", None, [V("A", "tuple", ["u8"], attr=["owned"]), V("B", "tuple", ["u8"], attr=["ref"])])
+    add("TryInto", "none", ["ref_mut"], [V("Z", "tuple", ["u8"], attr=["ignore"]), V("A", "tuple", ["u8"], attr=["owned", "ref"]),
+                                         V("B", "tuple", ["u8"]), V("C", "named", ["u8"], attr=["ref"])])
+    for dv in ("Unwrap", "TryUnwrap"):
+        add(dv, "none", ["ref"], [V("Small", "tuple", ["i32"], attr=["owned"]), V("Big", "tuple", ["i32"])])
+        add(dv, "none", ["ref", "ref_mut"], [V("A", "tuple", ["u8"], attr=["owned", "ref"]), V("B", "tuple", ["u8", "i32"]), V("C")])
     for dv in ("Unwrap", "TryUnwrap"):     # ignored variants in leading / middle position
         add(dv, "none", ["ref", "ref_mut"], [V("Hidden", "tuple", ["i32"], attr=["ignore"]), V("Circle", "tuple", ["i32"]),
                                              V("Gone", attr=["ignore"]), V("Square", "tuple", ["i32", "u8"]), V("Last")])
@@ -914,6 +929,24 @@ def attr_matrix():
     return out
 
 
+def sel_matrix():
+    """enum-level list x first attributed variant x second variant x a leading attribute-less / ignored variant;
+    Z, A and B share the field-type tuple (i32)"""
+    EA = [None, ["owned"], ["ref"], ["ref_mut"], ["owned", "ref"], ["ref", "ref_mut"]]
+    FIRST = [["owned"], ["owned", "ref"], ["ref"], ["ref_mut"], ["owned", "ref_mut"], ["ref", "ref_mut"]]
+    SECOND = [None, ["ignore"], ["ref"], ["owned"], ["ref_mut"]]
+    out = []
+    for dv in ("TryInto", "Unwrap", "TryUnwrap"):
+        for ea in EA:
+            for a in FIRST:
+                for b in SECOND:
+                    for z in (None, ["ignore"]):
+                        out.append({"derive": dv, "style": "selmatrix", "generics": "none", "attr": ea,
+                                    "variants": [V("Z", "tuple", ["i32"], attr=z), V("A", "tuple", ["i32"], attr=a),
+                                                 V("B", "tuple", ["i32"], attr=b), V("C", "tuple", ["u8", "i32"])]})
+    return out
+
+
 # ------------------------------------------------------------------ the check
 
 def run(tier, seed, replay):
@@ -927,20 +960,25 @@ def run(tier, seed, replay):
         decls = [json.load(open(replay))["replay"]["decl"]]
         matrix = []
     else:
-        n_rt = 110 if tier == "quick" else 600          # per derive, compiled and executed
+        n_rt = 90 if tier == "quick" else 600          # per derive, compiled and executed
         decls = corpus()
         for dv in DERIVES:
             styles = {"IsVariant": ["plain"] * 6 + ["wild"] * 2,
-                      "Unwrap": ["plain"] * 4 + ["vref"] * 2 + ["wild"] * 2,
-                      "TryUnwrap": ["plain"] * 4 + ["vref"] * 2 + ["wild"] * 2,
+                      "Unwrap": ["plain"] * 4 + ["vref"] * 2 + ["vsel"] * 2 + ["wild"] * 2,
+                      "TryUnwrap": ["plain"] * 4 + ["vref"] * 2 + ["vsel"] * 2 + ["wild"] * 2,
                       "TryInto": ["plain"] * 4 + ["vsel"] * 3 + ["whitelist"] * 1 + ["wild"] * 2}[dv]
             for _ in range(n_rt):
                 decls.append(gen_decl(rng, dv, rng.choice(styles), 0))
-        matrix = attr_matrix()
+        sm = sel_matrix()
+        rt_sel = [x for x in sm if documented(x)]
+        if tier == "quick":
+            rt_sel = rng.sample(rt_sel, 120)
+        decls += rt_sel
+        matrix = attr_matrix() + [x for x in sm if not any(x is y for y in rt_sel)]
         if tier == "quick":
             matrix = rng.sample(matrix, 700)
         for dv in DERIVES:                                # more wild declarations for the expansion-level tie
-            for _ in range(150 if tier == "quick" else 1500):
+            for _ in range(100 if tier == "quick" else 1500):
                 matrix.append(gen_decl(rng, dv, "wild", 0))
     allk = decls + matrix
     for k, d in enumerate(allk):
@@ -1117,10 +1155,13 @@ def run(tier, seed, replay):
                                       (key, v["name"], src.replace("\n", " "), wants, o))
                 if len(chk.cov["samples"]) < 12 and vi == 0 and ai == 0:
                     chk.sample({"enum": src, "accessor": key, "value": v["name"], "observed": o})
-    chk.notes.append("TryInto: impl/doc/try_into.md shows the owned/ref/ref_mut selection on the enum only; a selection written on a "
-                     "variant is accepted by the macro and is read by the oracle as additional kinds for that variant, but only "
-                     "next to an enum-level selection (classes try-into-impl-missing / accessor-unselected:TryInto); without one "
-                     "a variant attribute also acts as the `#[try_into]` whitelisting mark and only model-vs-code ties apply")
+    chk.notes.append("owned/ref/ref_mut lists: impl/doc/try_into.md shows the list on the enum only; lists written on variants are accepted "
+                     "by the macro and are read by the oracle as additional kinds for that variant, the by-value form being the default "
+                     "that no attribute takes away (as on the tree and in unwrap.md). The oracle applies that reading next to an "
+                     "enum-level list or when every variant carries its own attribute; a bare attribute-less variant next to "
+                     "attributed ones is subject to the first-match whitelisting (known finding variant-level-ref-attr) and, for "
+                     "TryInto, declarations whose first attributed variant names ref_mut with ref/owned (by-value default switched off "
+                     "by the same rule) are left to the model-vs-code ties")
     chk.bump("runtime_pairs", n_pairs)
     chk.cov["traces_validated_against_impl"] += n_tie2
     chk.cov["runtime_table"] = {"enums": len(cases), "pairs": n_pairs, "exhaustive": True,
